@@ -113,11 +113,27 @@ def replay(scn):
                     kw = {}
                     if i["minvalid"]:
                         kw["minvalid"] = i["minvalid"][0]
+                    if form == 1:
+                        kw["na"] = float("nan")         # the missing-value marker given explicitly, as a NaN that is not the object np.nan
                     res = a.dropna(axis=ax, **kw)
+                    if form == 0 and a.dtype.kind == "f":
+                        # the valid cells replaced by infinities of both signs: infinite is not missing, the same labels stay
+                        a2 = a.copy()
+                        flat = [k for k in range(a2.size)]
+                        for k in flat:
+                            ix = np.unravel_index(k, a2.shape)
+                            if a2.values[ix] == a2.values[ix]:
+                                a2.values[ix] = np.inf if k % 2 else -np.inf
+                        r2 = a2.dropna(axis=ax, **kw)
+                        if r2.axes[d].values.tolist() != res.axes[d].values.tolist():
+                            what = "dropna on data with +inf / -inf keeps labels %s, on the same NaN pattern with finite data %s" % (
+                                r2.axes[d].values.tolist(), res.axes[d].values.tolist())
                 elif op == "fillna":
                     v = A.cell_enc(888, i["fkind"]) if off == 0 else (0 if i["fkind"] == "i" else 0.0)      # falsy fill value
                     if form == 0:
                         res = a.fillna(v)
+                    elif form == 1 and kind == "f":
+                        res = a.fillna(v, na=np.float64("nan"))       # explicit marker (a NaN object other than np.nan)
                     else:
                         r = a.fillna(v, inplace=True)
                         res = a
